@@ -76,6 +76,8 @@ func corrC01(c *corrCtx) {
 			}
 		}
 	}
+	// every dynamic colour type through the generic constructors (opaque colours)
+	typedColourCases(c, "C01", true, 300)
 	c.extra["codes_evaluated"] = cases
 	c.extra["exhaustive"] = true
 }
